@@ -7,8 +7,8 @@ EXTENDS Integers, Sequences, FiniteSets
 
 \* locations are sequences of names below base
 InsideFiles == { <<"root", "a">>, <<"root", "b", "a">>, <<"root", "b", "c", "a">>, <<"root", "d.x">>, <<"root", "s p", "a">>, <<"root", "..x">>,
-                 <<"root", "root", "a">>, <<"root", "c">> }
-OutsideFiles == { <<"a">>, <<"b">>, <<"c">>, <<"rootx">>, <<"root2", "a">>, <<"d.x">>, <<"..x">> }
+                 <<"root", "root", "a">>, <<"root", "c">>, <<"root", "b.ecal">> }     \* (b.ecal: the nested root's name plus an extension)
+OutsideFiles == { <<"root.ecal">>, <<"a">>, <<"b">>, <<"c">>, <<"rootx">>, <<"root2", "a">>, <<"d.x">>, <<"..x">> }
 Files == InsideFiles \cup OutsideFiles
 
 Segs == {"a", "b", "c", ".", "..", "", "..x", "d.x", "s p", "root", "root2"}
